@@ -1,18 +1,11 @@
-(* C19 -- Gas phases obey their equation of state and fugacity-based equilibrium.
-   p_* (prep.cpp: Phreeqc::calc_PR(phase_ptrs, P, TK, V_m)), g_* (gases.cpp: Phreeqc::calc_PR()), cg_* (model.cpp:
-   calc_gas_pressures), fv_* (gases.cpp: calc_fixed_volume_gas_pressures), mb_* (model.cpp: mb_gases), bip_* (gases.cpp:
-   calc_gas_binary_parameter) are REGENERATED from /repo on every run (coq/Gen/Gen_C19_gases.v);
-   pr_a, pr_b, pr_alpha, pr_pressure, pr_cubic, cubic_disc, ln_phi_gen, ln_phi_PR, b_mix, a_mix, s2_of, R_gas ... are the
-   textbook definitions of coq/C19/Spec.v; b_loop, a_loop, pr_p_loop, lp_loop, ideal_loop are the models of the code's loops
-   (coq/C19/Mix.v) whose bodies are the regenerated increments. *)
-From Coq Require Import Reals QArith Qreals List String.
-From IPV Require Import Base.RExpr Base.IntervalEval C19.BExpr C19.Spec C19.PRProofs C19.Mix C19.Checker C19.Summary Gen.Gen_C19_gases.
+(* C19 -- the statements of Props/Properties_C19.v with their (short) derivations from the lemmas of PRProofs.v, Mix.v,
+   Checker.v; Props/ only contains `exact`. *)
+From Coq Require Import Reals QArith Qreals List String Lra.
+From IPV Require Import Base.RExpr Base.IntervalEval C19.BExpr C19.Spec C19.PRProofs C19.Mix C19.Checker Gen.Gen_C19_gases.
 Import ListNotations.
 Local Open Scope R_scope.
 
-(* --- Peng-Robinson constants: a = 0.457235 (R Tc)^2/Pc, b = 0.077796 R Tc/Pc, alpha = (1 + kappa(omega)(1 - sqrt(T/Tc)))^2,
-       in both copies of calc_PR and in both places alpha is (re)computed --- *)
-Theorem pr_constants :
+Lemma T_pr_constants :
   ((forall Rg Tc Pc, Pc <> 0 -> evalR (env_of [Rg; Tc; Pc]) p_pr_a = pr_a Rg Tc Pc) /\
    (forall Rg Tc Pc, Pc <> 0 -> evalR (env_of [Rg; Tc; Pc]) p_pr_b = pr_b Rg Tc Pc) /\
    (forall T Tc w, Tc <> 0 -> evalR (env_of [T; Tc; w]) p_alpha0 = pr_alpha T Tc w) /\
@@ -21,61 +14,50 @@ Theorem pr_constants :
    (forall Rg Tc Pc, Pc <> 0 -> evalR (env_of [Rg; Tc; Pc]) g_pr_b = pr_b Rg Tc Pc) /\
    (forall T Tc w, Tc <> 0 -> evalR (env_of [T; Tc; w]) g_alpha0 = pr_alpha T Tc w) /\
    (forall T Tc w, Tc <> 0 -> evalR (env_of [T; Tc; w]) g_alpha1 = pr_alpha T Tc w)).
-Proof. exact T_pr_constants. Qed.
-Print Assumptions pr_constants.
+Proof. exact (conj p_constants g_constants). Qed.
 
-(* alpha depends on T: it is recomputed exactly when the temperature it was computed for (pr_tk, stored at both places) differs *)
-Theorem alpha_refreshed_when_temperature_changes :
+Lemma T_alpha_refreshed_when_temperature_changes :
   (forall tk T, evalB (env_of [tk; T]) p_alpha_refresh_guard <-> tk <> T) /\
   (forall tk T, evalB (env_of [tk; T]) g_alpha_refresh_guard <-> tk <> T) /\
   map snd p_pr_tk_stores = ["TK"%string; "TK"%string] /\ map snd g_pr_tk_stores = ["TK"%string; "TK"%string].
-Proof. exact T_alpha_refreshed_when_temperature_changes. Qed.
-Print Assumptions alpha_refreshed_when_temperature_changes.
+Proof. exact p_g_alpha_refresh. Qed.
 
-(* the gas constant of the code (R_LITER_ATM) is the physical one to 3e-5 relative: inside the property's 1e-4 *)
-Theorem gas_constant_within_tolerance :
+Lemma T_gas_constant_within_tolerance :
   Rabs (evalR (env_of []) p_R - R_gas) <= 3 / 100000 * R_gas /\ Rabs (evalR (env_of []) g_R - R_gas) <= 3 / 100000 * R_gas.
-Proof. exact T_gas_constant_within_tolerance. Qed.
-Print Assumptions gas_constant_within_tolerance.
+Proof. exact (conj (R_code_close p_R (or_introl eq_refl)) (R_code_close g_R (or_intror eq_refl))). Qed.
 
-(* --- P from V_m: P = RT/(V-b) - a alpha/(V(V+2b)-b^2), also at the spinodal volume v1 of the three-root region --- *)
-Theorem pressure_formula_is_PR :
+Lemma T_pressure_formula_is_PR :
   (forall RT V b a, V - b <> 0 -> V * (V + 2 * b) - b * b <> 0 -> evalR (env_of [RT; V; b; a]) p_P = pr_pressure RT V b a) /\
   (forall RT V b a, V - b <> 0 -> V * (V + 2 * b) - b * b <> 0 -> evalR (env_of [RT; V; b; a]) p_P_v1 = pr_pressure RT V b a) /\
   (forall RT V b a, V - b <> 0 -> V * (V + 2 * b) - b * b <> 0 -> evalR (env_of [RT; V; b; a]) g_P = pr_pressure RT V b a) /\
   (forall RT V b a, V - b <> 0 -> V * (V + 2 * b) - b * b <> 0 -> evalR (env_of [RT; V; b; a]) g_P_v1 = pr_pressure RT V b a).
-Proof. exact T_pressure_formula_is_PR. Qed.
-Print Assumptions pressure_formula_is_PR.
+Proof. exact (conj (proj1 p_pressure) (conj (proj2 p_pressure) (conj (proj1 g_pressure) (proj2 g_pressure)))). Qed.
 
-(* --- the cubic the code solves for V_m at given P (coefficients r3[1..3], both branches, both copies) has exactly the
-       molar volumes satisfying the Peng-Robinson equation as its roots --- *)
-Theorem cubic_equivalent :
+Lemma T_cubic_equivalent :
   forall RT P b a V, P <> 0 -> V - b <> 0 -> V * V + 2 * b * V - b * b <> 0 ->
     let env := env_of [b; RT; a; P] in
     (P = pr_pressure RT V b a <-> V * V * V + evalR env p_r31_p * (V * V) + evalR env p_r32_p * V + evalR env p_r33_p = 0) /\
     (P = pr_pressure RT V b a <-> V * V * V + evalR env p_r31_v * (V * V) + evalR env p_r32_v * V + evalR env p_r33_v = 0) /\
     (P = pr_pressure RT V b a <-> V * V * V + evalR env g_r31_p * (V * V) + evalR env g_r32_p * V + evalR env g_r33_p = 0) /\
     (P = pr_pressure RT V b a <-> V * V * V + evalR env g_r31_v * (V * V) + evalR env g_r32_v * V + evalR env g_r33_v = 0).
-Proof. exact T_cubic_equivalent. Qed.
-Print Assumptions cubic_equivalent.
+Proof.
+  intros RT P b a V HP H1 H2 env.
+  exact (conj (cubic_equivalent_for _ _ _ (proj2 p_cubic_coeffs) RT P b a V HP H1 H2)
+        (conj (cubic_equivalent_for _ _ _ (proj1 p_cubic_coeffs) RT P b a V HP H1 H2)
+        (conj (cubic_equivalent_for _ _ _ (proj2 g_cubic_coeffs) RT P b a V HP H1 H2)
+              (cubic_equivalent_for _ _ _ (proj1 g_cubic_coeffs) RT P b a V HP H1 H2)))).
+Qed.
 
-(* discriminant used for the three-root (two-phase) test; depressed cubic t^3 + rp t + rq with t = V + r1/3 *)
-Theorem cubic_discriminant_and_depressed_form :
+Lemma T_cubic_discriminant_and_depressed_form :
   (forall r1 r2 r3, evalR (env_of [r1; r2; r3]) p_disct = cubic_disc r1 r2 r3) /\
   (forall r1 r2 r3, evalR (env_of [r1; r2; r3]) g_disct = cubic_disc r1 r2 r3) /\
   (forall r1 r2 r3 V, let env := env_of [r1; r2; r3] in let t := V + r1 / 3 in
      V * V * V + r1 * (V * V) + r2 * V + r3 = t * t * t + evalR env p_rp * t + evalR env p_rq) /\
   (forall r1 r2 r3 V, let env := env_of [r1; r2; r3] in let t := V + r1 / 3 in
      V * V * V + r1 * (V * V) + r2 * V + r3 = t * t * t + evalR env g_rp * t + evalR env g_rq).
-Proof. exact T_cubic_discriminant_and_depressed_form. Qed.
-Print Assumptions cubic_discriminant_and_depressed_form.
+Proof. exact (conj (proj1 p_g_disc) (conj (proj2 p_g_disc) (conj (proj1 p_g_depressed) (proj2 p_g_depressed)))). Qed.
 
-(* PARTIAL (root finding).  Proved: in the Cardano branch `sqrt(rz) + rq/2 > 0` the value the code returns,
-   V = u - rp/(3u) - r1/3, is a root of the depressed cubic PROVIDED u is the exact real cube root of -(sqrt(rz) + rq/2);
-   the literal 0.33333333333333333 is 1/3 to 1e-17.  NOT proved: that pow(x, 0.33333333333333333) in binary64 is that cube
-   root to any accuracy, the other Cardano branch and the trigonometric (three real roots) branch, the secant/bisection search
-   for the spinodal volume.  These are covered on the implementation by the verified checker check_eos. *)
-Theorem cardano_branch_root_partial :
+Lemma T_cardano_branch_root_partial :
   (forall rp rq r1 u, u <> 0 -> let rz := evalR (env_of [rp; rq]) p_rzc in
      0 <= rz -> u * u * u = - (sqrt rz + rq / 2) ->
      let V := evalR (env_of [u; rp; r1]) p_Vm_card2 in let t := V + r1 / 3 in t * t * t + rp * t + rq = 0) /\
@@ -83,11 +65,12 @@ Theorem cardano_branch_root_partial :
      0 <= rz -> u * u * u = - (sqrt rz + rq / 2) ->
      let V := evalR (env_of [u; rp; r1]) g_Vm_card2 in let t := V + r1 / 3 in t * t * t + rp * t + rq = 0) /\
   Rabs (evalR (env_of []) p_one_3 - 1 / 3) <= 1 / 100000000000000000 /\ Rabs (evalR (env_of []) g_one_3 - 1 / 3) <= 1 / 100000000000000000.
-Proof. exact T_cardano_branch_root_partial. Qed.
-Print Assumptions cardano_branch_root_partial.
+Proof.
+  exact (conj (proj1 p_g_cardano2) (conj (proj2 p_g_cardano2)
+        (conj (one_third_literal p_one_3 (or_introl eq_refl)) (one_third_literal g_one_3 (or_intror eq_refl))))).
+Qed.
 
-(* --- ln(phi_i): the textbook formula, with the code's decimal literals for 2 sqrt 2, 1 + sqrt 2, sqrt 2 - 1 BOUNDED --- *)
-Theorem phi_formula_is_PR :
+Lemma T_phi_formula_is_PR :
   (exists c1 c2 c3 : R,
     Rabs (c1 - 2 * sqrt 2) <= 3 / 10 ^ 7 /\ Rabs (c2 - (1 + sqrt 2)) <= 1 / 10 ^ 8 /\ Rabs (c3 - (sqrt 2 - 1)) <= 1 / 10 ^ 8 /\
     forall P V RT b a bi s2, RT <> 0 -> b <> 0 -> a <> 0 -> P <> 0 ->
@@ -98,11 +81,9 @@ Theorem phi_formula_is_PR :
     forall P V RT b a bi s2, RT <> 0 -> b <> 0 -> a <> 0 -> P <> 0 ->
       let Z := P * V / RT in let B := b * P / RT in Z - c3 * B <> 0 ->
       evalR (env_of [P; V; RT; b; a; bi; s2]) g_lnphi = ln_phi_gen c1 c2 c3 Z (a * P / (RT * RT)) B (bi / b) s2 a).
-Proof. exact T_phi_formula_is_PR. Qed.
-Print Assumptions phi_formula_is_PR.
+Proof. exact (conj p_lnphi_ok g_lnphi_ok). Qed.
 
-(* Z, A, B; the guard of the logarithm; the clamp 0.01 <= phi <= 85 (ln phi cut to [-4.6, 4.44]); what is stored *)
-Theorem phi_guard_clamp_and_outputs :
+Lemma T_phi_guard_clamp_and_outputs :
   ((forall P V RT, RT <> 0 -> evalR (env_of [P; V; RT]) p_Z = P * V / RT) /\
    (forall a P RT, RT <> 0 -> evalR (env_of [a; P; RT]) p_A = a * P / (RT * RT)) /\
    (forall b P RT, RT <> 0 -> evalR (env_of [b; P; RT]) p_B = b * P / RT)) /\
@@ -123,13 +104,12 @@ Theorem phi_guard_clamp_and_outputs :
    g_pr_phi_site_conds = [["phase_ptr->fraction_x == 0.0"%string]; []] /\
    g_pr_si_f_site_conds = [["phase_ptr->fraction_x == 0.0"%string]; []] /\
    g_pr_p_site_conds = [["phase_ptr->fraction_x == 0.0"%string]; []]).
-Proof. exact T_phi_guard_clamp_and_outputs. Qed.
-Print Assumptions phi_guard_clamp_and_outputs.
+Proof.
+  exact (conj (proj1 p_g_zab) (conj (proj2 p_g_zab) (conj (proj1 p_g_guard) (conj (proj2 p_g_guard)
+        (conj (proj1 p_g_clamp) (conj (proj2 p_g_clamp) (conj (proj1 p_g_phi_out) (conj (proj2 p_g_phi_out) p_g_store_shape)))))))).
+Qed.
 
-(* --- mixing rules, for mixtures of ANY number of components: the loops over the gas components compute
-       b = sum x_i b_i,  a alpha = sum_i sum_j x_i x_j sqrt(a_i alpha_i a_j alpha_j)(1 - k_ij)  and store
-       s2_i = sum_j x_j a_ij per component;  the binary interaction entry of the database enters as (1 - k_ij) --- *)
-Theorem mixing_rules : forall (kf : nat -> nat -> R) (cs : list comp),
+Lemma T_mixing_rules : forall (kf : nat -> nat -> R) (cs : list comp),
   (b_loop p_bsum_inc cs = b_mix cs /\
    fst (a_loop p_aa p_aasum_inc p_aasum2_inc kf cs) = a_mix kf cs /\
    snd (a_loop p_aa p_aasum_inc p_aasum2_inc kf cs) = map (fun p => s2_of kf cs (fst p) (snd p)) (combine (seq 0 (List.length cs)) cs)) /\
@@ -138,20 +118,23 @@ Theorem mixing_rules : forall (kf : nat -> nat -> R) (cs : list comp),
    snd (a_loop g_aa g_aasum_inc g_aasum2_inc kf cs) = map (fun p => s2_of kf cs (fst p) (snd p)) (combine (seq 0 (List.length cs)) cs)) /\
   (forall s, evalR (env_of [s]) p_aasum2_store = s) /\ (forall s, evalR (env_of [s]) g_aasum2_store = s) /\
   (forall k, evalR (env_of [k]) bip_from_table = 1 - k) /\ evalR (env_of []) bip_default = 1.
-Proof. exact T_mixing_rules. Qed.
-Print Assumptions mixing_rules.
+Proof.
+  intros kf cs.
+  exact (conj (p_mixing_rules kf cs) (conj (g_mixing_rules kf cs)
+        (conj (proj2 (proj2 (proj2 (proj2 p_mixing_leaves)))) (conj (proj2 (proj2 (proj2 (proj2 g_mixing_leaves))))
+        (conj (proj1 bip_leaves) (proj2 bip_leaves)))))).
+Qed.
 
-(* --- partial pressures are mole-fraction shares of the total and sum to it (any number of components) --- *)
-Theorem partial_pressures_sum : forall (ns : list R) (P : R), sumR ns <> 0 ->
+Lemma T_partial_pressures_sum : forall (ns : list R) (P : R), sumR ns <> 0 ->
   (pr_p_loop p_x_frac p_pr_p ns P = map (fun n => n / sumR ns * P) ns /\ sumR (pr_p_loop p_x_frac p_pr_p ns P) = P) /\
   (pr_p_loop g_x_frac g_pr_p ns P = map (fun n => n / sumR ns * P) ns /\ sumR (pr_p_loop g_x_frac g_pr_p ns P) = P).
-Proof. exact T_partial_pressures_sum. Qed.
-Print Assumptions partial_pressures_sum.
+Proof.
+  intros ns P H.
+  exact (conj (partial_pressures_sum_for _ _ (proj1 p_g_partial_leaves) ns P H)
+              (partial_pressures_sum_for _ _ (proj2 p_g_partial_leaves) ns P H)).
+Qed.
 
-(* --- the equilibrium partial pressure p_soln of a gas satisfies  phi * p_soln = 10^lp  where lp = log10 IAP - log10 K is the
-       saturation index assembled by the loop over the reaction tokens; all four combinations of the two calc_PR copies with
-       calc_gas_pressures / calc_fixed_volume_gas_pressures --- *)
-Theorem fugacity_is_10_pow_SI :
+Lemma T_fugacity_is_10_pow_SI :
   (forall lp lnphi, let sif := evalR (env_of [lnphi; ln 10]) p_si_f in
      exp lnphi * evalR (env_of [ln 10; lp; sif]) cg_p_soln = Rpower 10 lp) /\
   (forall lp lnphi, let sif := evalR (env_of [lnphi; ln 10]) g_si_f in
@@ -160,13 +143,15 @@ Theorem fugacity_is_10_pow_SI :
      exp lnphi * evalR (env_of [ln 10; lp; sif]) fv_p_soln = Rpower 10 lp) /\
   (forall lk toks, lp_loop cg_lp0 cg_lp_inc lk toks = sumR (map (fun t => fst t * snd t) toks) - lk) /\
   (forall lk toks, lp_loop fv_lp0 fv_lp_inc lk toks = sumR (map (fun t => fst t * snd t) toks) - lk).
-Proof. exact T_fugacity_is_10_pow_SI. Qed.
-Print Assumptions fugacity_is_10_pow_SI.
+Proof.
+  destruct lp_leaves as (A1 & A2 & A3 & A4).
+  exact (conj (fugacity_generic _ _ (proj1 si_f_leaves) (proj1 p_soln_leaves))
+        (conj (fugacity_generic _ _ (proj2 si_f_leaves) (proj2 p_soln_leaves))
+        (conj (fugacity_generic _ _ (proj1 si_f_leaves) (proj2 p_soln_leaves))
+        (conj (lp_loop_is_SI _ _ A1 A2) (lp_loop_is_SI _ _ A3 A4))))).
+Qed.
 
-(* --- moles from equilibrium partial pressures: fixed pressure n_i = p_i n/P (so x_i = p_i/P); fixed volume with PR
-       n_i = (p_i/P) V/V_m, V_m = V/n; without critical constants the loop n_i = p_i V/(R T), P += p_i gives the ideal-gas law
-       P V = n R T for any number of gases, with R the literal 0.0820597 --- *)
-Theorem moles_from_partial_pressures_and_ideal_gas_law :
+Lemma T_moles_from_partial_pressures_and_ideal_gas_law :
   ((forall p n P, evalR (env_of [p; n; P]) cg_moles_fp = p * n / P) /\
    (forall p n P, n <> 0 -> P <> 0 -> evalR (env_of [p; n; P]) cg_frac_fp = p / P) /\
    (forall p P V Vm, evalR (env_of [p; P; V; Vm]) cg_moles_pr_fv = p / P * V / Vm) /\
@@ -178,13 +163,12 @@ Theorem moles_from_partial_pressures_and_ideal_gas_law :
   (forall V T ps, 820597 / 10000000 * T <> 0 ->
      let st := ideal_loop fv_moles_ideal fv_totp_ideal V T ps in
      fst st = sumR ps /\ fst st * V = snd st * (820597 / 10000000) * T).
-Proof. exact T_moles_from_partial_pressures_and_ideal_gas_law. Qed.
-Print Assumptions moles_from_partial_pressures_and_ideal_gas_law.
+Proof.
+  destruct ideal_leaves as (I1 & I2 & I3 & I4).
+  exact (conj moles_leaves (conj (ideal_gas_law_for _ _ _ I1 I2) (ideal_gas_law_for _ _ _ I3 I4))).
+Qed.
 
-(* --- initial state built by tidy_gas_phase from the initial partial pressures (any number of gases): without critical
-       constants P = sum p_i and P V = n R T; with Peng-Robinson n_i = (p_i / P) V / V_m, hence V / n = V_m, the molar volume
-       calc_PR returns for (P, T, x) (cubic_equivalent: a root of the Peng-Robinson cubic) --- *)
-Theorem initial_moles_from_partial_pressures :
+Lemma T_initial_moles_from_partial_pressures :
   (forall V T ps, T <> 0 ->
      let st := init_ideal td_moles_ideal_fp td_P_inc_fp V T ps in
      fst st = sumR ps /\ fst st * V = snd st * (820597 / 10000000) * T) /\
@@ -193,20 +177,14 @@ Theorem initial_moles_from_partial_pressures :
      fst st = sumR ps /\ fst st * V = snd st * (820597 / 10000000) * T) /\
   (forall V Vm ps, sumR ps <> 0 -> Vm <> 0 ->
      init_pr td_x td_moles_pr V Vm ps = map (fun p => p / sumR ps * V / Vm) ps /\ sumR (init_pr td_x td_moles_pr V Vm ps) = V / Vm).
-Proof. exact T_initial_moles_from_partial_pressures. Qed.
-Print Assumptions initial_moles_from_partial_pressures.
+Proof. exact initial_moles_all. Qed.
 
-(* --- a fixed-pressure gas phase is switched on iff the sum f of the equilibrium partial pressures exceeds the fixed
-       pressure (by 1e-7) or it already holds more than MIN_TOTAL moles; gas_in starts FALSE and this is the only place of the
-       fixed-pressure branch that sets it --- *)
-Theorem fixed_pressure_exists_iff : forall f P moles min_total,
+Lemma T_fixed_pressure_exists_iff : forall f P moles min_total,
   (evalB (env_of [f; P; moles; min_total]) mb_gas_in_guard <-> (f > P + 1 / 10000000 \/ moles > min_total)) /\
   mb_gas_in_initially_false = true /\ mb_gas_in_sites_fixed_pressure = 1%nat.
-Proof. exact T_fixed_pressure_exists_iff. Qed.
-Print Assumptions fixed_pressure_exists_iff.
+Proof. intros. exact (conj (mb_gases_guard f P moles min_total) mb_gases_shape). Qed.
 
-(* --- verified checkers used by the correspondence run (Checker.v; independent of the generated files) --- *)
-Theorem check_gas_sound :
+Lemma T_check_gas_sound :
   (forall T P V m cs, check_eos_any T P V m cs = true ->
      exists Rg, (Rg = R_code \/ Rg = R_codata) /\ Rabs (P_eos_R Rg T V m cs - Q2R P) <= / 10000 * Rabs (Q2R P)) /\
   (forall T P V cs, check_ideal_any T P V cs = true ->
@@ -232,5 +210,6 @@ Theorem check_gas_sound :
   (forall tol P l, check_reaches tol P l = true -> Q2R P * (1 - Q2R tol) <= peq_sum_R l) /\
   (forall tol P l, check_below tol P l = true -> peq_sum_R l <= Q2R P * (1 + Q2R tol)) /\
   (forall Rg T P m cs, check_three_roots Rg T P m cs = true -> 0 < disc_R Rg T P m cs).
-Proof. exact T_check_gas_sound. Qed.
-Print Assumptions check_gas_sound.
+Proof.
+  exact ((conj check_eos_any_sound (conj check_ideal_any_sound (conj check_phi_sound (conj check_phi_at_sound (conj check_clamped_sound (conj check_partial_sound (conj check_partial_floor_sound (conj check_psum_sound (conj check_fug_sound (conj check_fug_floor_sound (conj check_reaches_sound (conj check_below_sound check_three_roots_sound))))))))))))).
+Qed.
